@@ -792,8 +792,33 @@ type ownMsg struct {
 
 func presentsSK(b []byte) bool { return len(b) >= 28 && b[16] == 46 }
 
-func (g *Gen) genSaOp(k *saKeys, own []ownMsg) *saOp {
+// the message the long-lived object accepted or produced last, with the role that receives it
+type lastMsg struct {
+	bs   []byte
+	recv message.Role
+}
+
+func (g *Gen) genSaOp(k *saKeys, own []ownMsg, last *lastMsg) *saOp {
 	role := message.Role(g.chance(0.5))
+	if last != nil && g.chance(0.12) {
+		// a forgery of the message that was processed LAST: octets before the checksum altered (header fields,
+		// IV, ciphertext), the checksum itself kept as it was
+		icv := refIntegOutLen[k.st.i]
+		if len(last.bs) > 28+icv {
+			op := &saOp{kind: 'U', role: last.recv, withHdr: g.chance(0.5), what: "forge-last", bs: append([]byte{}, last.bs...)}
+			cands := []int{20 + g.r.Intn(4), 19, 18, g.r.Intn(16)}
+			if n := len(op.bs) - icv; n > 32 {
+				cands = append(cands, 32+g.r.Intn(n-32))
+			}
+			op.bs[cands[g.r.Intn(len(cands))]] ^= 1 << uint(g.r.Intn(8))
+			op.mustErr = presentsSK(op.bs)
+			return op
+		}
+	}
+	if g.chance(0.06) {
+		bs, what := g.authMalformed(k, role)
+		return &saOp{kind: 'U', role: !role, withHdr: g.chance(0.5), bs: bs, what: "auth-" + what}
+	}
 	peerMsg := func(keys *saKeys, sender message.Role) ([]byte, string) {
 		for {
 			sx := g.smallMsg()
@@ -925,12 +950,18 @@ func (c *Ctx) c17Sequence(s *SuiteStat, g *Gen, k *saKeys, n, idx int, corr *[]c
 	var ops []*saOp
 	var results []callRes
 	var own []ownMsg
+	var last *lastMsg
 	corrN, corrLen := 0, len("saops "+k.line())
 	for j := 0; j < n; j++ {
-		o := g.genSaOp(k, own)
+		o := g.genSaOp(k, own, last)
 		ops = append(ops, o)
 		long := runSaOp(sa, o)
 		results = append(results, long)
+		if long.kind == "ok" && o.kind == 'P' {
+			last = &lastMsg{bs: unhx(long.val), recv: !o.role}
+		} else if long.kind == "ok" && o.kind == 'U' {
+			last = &lastMsg{bs: o.bs, recv: o.role}
+		}
 		if t := len(o.text()) + 1; corrN == j && j < 64 && corrLen+t < 28000 {
 			corrN, corrLen = j+1, corrLen+t
 		}
@@ -971,7 +1002,7 @@ func propC17(c *Ctx) {
 	}
 	g := NewGen(c.seed)
 	s := c.suite("sa-histories", "oracle",
-		"random histories (quick: up to 64, thorough: up to 2000 operations) on ONE *security.IKESAKey per history, all 9 suites, over {protect as initiator / responder (injected random octets), unprotect a genuine message of a fresh peer or its own earlier output (both header modes), unprotect tampered / truncated / garbage / cross-key / reflected input, derive a Child SA (3 encr x {none, 3 integ})}; after every step the same operation with the same inputs on a FRESH object must give the identical outcome; protected messages must be accepted by a fresh peer, genuine ones accepted, forged ones presenting SK rejected, Child SA keys = stdlib prf+; SK_* fields and object identities unchanged at the end; one evaluation = one step; non-trivial = step >= 1 (the object has a history); distinct by (history, step)")
+		"random histories (quick: up to 64, thorough: up to 2000 operations) on ONE *security.IKESAKey per history, all 9 suites, over {protect as initiator / responder (injected random octets), unprotect a genuine message of a fresh peer or its own earlier output (both header modes), unprotect tampered / truncated / garbage / cross-key / reflected input, a forgery of the message processed last that keeps its checksum, input with a CORRECT checksum over a malformed encrypted part, derive a Child SA (3 encr x {none, 3 integ})}; after every step the same operation with the same inputs on a FRESH object must give the identical outcome; protected messages must be accepted by a fresh peer, genuine ones accepted, forged ones presenting SK rejected, Child SA keys = stdlib prf+; SK_* fields and object identities unchanged at the end; one evaluation = one step; non-trivial = step >= 1 (the object has a history); distinct by (history, step)")
 	var corr []corrCase
 	lens := []int{64, 64, 64, 64, 64, 64, 48, 33, 17, 9, 4, 2}
 	if c.thorough() {
@@ -1130,7 +1161,7 @@ func (c *Ctx) c18Configs() []raceCfg {
 
 func propC18(c *Ctx) {
 	s := c.suite("race-detector", "oracle",
-		"supporting evidence (the proof part is the footprint / non-interference theorems): harness/racecheck built with -race; GOMAXPROCS in {2,4,16} x N in {2,8,64} goroutines (quick: 4 of the combinations), each goroutine with its own seed, SA key objects and messages runs a random sequence over {Encode, Decode, EncodeEncrypt, DecodeDecrypt, GenerateKeyForIKESA, GenerateKeyForChildSA, DH public value / shared key, transform mapping of all registries, EAP marshal / unmarshal / AT_MAC / PRF', GenerateRandomNumber / Uint8, decoding ONE shared read-only datagram}; the per-goroutine transcript must equal the transcript of the same sequence run alone beforehand in the same process; any race report is a violation; one evaluation = one (GOMAXPROCS, N, seed) run; non-trivial = every run")
+		"supporting evidence (the proof part is the footprint / non-interference theorems): harness/racecheck built with -race; GOMAXPROCS in {2,4,16} x N in {2,8,64} goroutines (quick: 4 of the combinations), each goroutine with its own seed, SA key objects and messages runs a random sequence over {Encode, Decode, EncodeEncrypt, DecodeDecrypt, GenerateKeyForIKESA, GenerateKeyForChildSA, DH public value / shared key (own values, and peer values as they may arrive on the wire: any length, 0, 1, all ones, >= p), transform mapping of all registries, EAP marshal / unmarshal / AT_MAC / PRF', GenerateRandomNumber / Uint8, decoding ONE shared read-only datagram}; the per-goroutine transcript must equal the transcript of the same sequence run alone beforehand in the same process; any race report is a violation; one evaluation = one (GOMAXPROCS, N, seed) run; non-trivial = every run")
 	src := harnessSrcDir()
 	if src == "" {
 		c.violate(Violation{Suite: s.Name, Kind: "correspondence", Class: "race-build-failed", Desc: "cannot locate harness/racecheck/main.go (set VERIF_HARNESS_SRC)", Input: "go build -race ./racecheck"})
